@@ -384,6 +384,7 @@ Inductive obs :=
 | OSelf
 | OScalar (z : Z)
 | OTable (c : cls) (names : list pv) (doms : list (list pv)) (data : list Z) (probs : list obs) (kinds : list domkind)
+         (ks : list pv) (n : nat)      (* keys() and len() of the returned table itself *)
 | OErr (e : err)
 | ODefault
 | OEarly.
@@ -394,7 +395,7 @@ Definition obs_of_get (r : res (option gres)) : obs :=
   | Ok None => ODefault
   | Ok (Some GSelf) => OSelf
   | Ok (Some (GScalar z)) => OScalar z
-  | Ok (Some (GTable t)) => OTable (tcls t) [] [] [] [] []
+  | Ok (Some (GTable t)) => OTable (tcls t) [] [] [] [] [] [] 0
   end.
 
 (* a returned table: class, names, domains, row-major data; for a TableDistribution also
@@ -406,7 +407,7 @@ Definition obs_table (t : table) : obs :=
           | CDist => map (fun e => obs_of_get (table_get t e)) (keys t)
           | _ => []
           end)
-         (map fkind (tix t)).
+         (map fkind (tix t)) (keys t) (len t).
 
 Definition obs_of (r : res gres) : obs :=
   match r with
